@@ -130,7 +130,9 @@ def main(argv=None):
         # an exception that was raised inside the code under test (innermost frame in the repository) and that the stand-in did not
         # expect is a run-time contract that fired ("this operation completes"); anything else is a defect of the checker itself
         frames = re.findall(r'File "([^"]+)", line \d+', bounded_err or "")
-        if frames and os.path.abspath(frames[-1]).startswith(os.path.abspath(REPO) + os.sep) and "Traceback" in (bounded_err or ""):
+        here_idx = max([i for i, fr in enumerate(frames) if os.path.abspath(fr).startswith(HERE + os.sep)] or [-1])
+        through_repo = any(os.path.abspath(fr).startswith(os.path.abspath(REPO) + os.sep) for fr in frames[here_idx + 1:])
+        if frames and through_repo and "Traceback" in (bounded_err or ""):
             os.makedirs(os.path.join(HERE, "replays", pid), exist_ok=True)
             rp = os.path.join("replays", pid, "bounded_crash.json")
             with open(os.path.join(HERE, rp), "w") as f:
